@@ -120,6 +120,9 @@ func (c18) Generate(r *sim.Rand, tier string) *sim.Scenario {
 				st.B = r.Bool(0.5)
 			}
 			st.I = randShape(r, 4, 5, 200)
+			if r.Bool(0.15) {
+				st.I = randShape(r, 6, 3, 200) // ranks 5-6, many size-1 dimensions
+			}
 		} else {
 			f := live[r.Intn(len(live))]
 			st.Tag, st.F, st.B = f.kind, cpF(f.f), f.nilc
@@ -133,6 +136,10 @@ func (c18) Generate(r *sim.Rand, tier string) *sim.Scenario {
 					st.I = []int{r.Range(100, 600)}
 				} else if r.Bool(0.3) {
 					st.I = []int{r.Range(2, 5), r.Range(2, 5), r.Range(2, 5), r.Range(2, 6)}
+				} else if r.Bool(0.2) {
+					st.I = []int{r.Range(1, 3), r.Range(1, 3), r.Range(1, 3), r.Range(1, 3), r.Range(2, 4), r.Range(2, 5)}
+				} else if r.Bool(0.2) {
+					st.I = []int{r.Range(17, 40), r.Range(17, 30)}
 				}
 			} else {
 				st.I = randShape(r, 4, 5, 200)
